@@ -1,0 +1,59 @@
+//go:build verif
+
+package keeper
+
+// Contracts for the deductive checker in /verif (comment-only; compiled only with -tags verif).
+
+/*@
+alias FMParams github.com/haqq-network/haqq/x/feemarket/types.Params
+world fm_params FMParams
+world fm_block_gas uint64
+world fm_transient_gas uint64
+
+// ---- leaf store accessors: assumed contracts over the abstract store view (conformance-tested, not proved)
+func (Keeper).GetParams
+    trusted
+    ensures result == fm_params
+func (Keeper).SetParams
+    trusted
+    modifies fm_params
+    ensures result == nil ==> fm_params == params
+    ensures result != nil ==> fm_params == old(fm_params)
+func (Keeper).GetBlockGasWanted
+    trusted
+    ensures result == fm_block_gas
+func (Keeper).SetBlockGasWanted
+    trusted
+    modifies fm_block_gas
+    ensures fm_block_gas == gas
+func (Keeper).GetTransientGasWanted
+    trusted
+    ensures result == fm_transient_gas
+func (Keeper).Logger
+    trusted
+    pure
+
+// ---- C17: the base fee is the EIP-1559 function of (previous base fee, gas figure, target)
+func (Keeper).CalculateBaseFee
+    let p = fm_params
+    let h = ctx_height(ctx)
+    let cp = ctx_consparams(ctx)
+    let L = ite(cp != nil && cp.Block != nil && cp.Block.MaxGas > 0 - 1, cp.Block.MaxGas, 18446744073709551615)
+    let T = L / p.ElasticityMultiplier
+    let g = fm_block_gas
+    let b = p.BaseFee
+    let den = p.BaseFeeChangeDenominator
+    let floor = dec_trunc(p.MinGasPrice)
+    let enabled = !p.NoBaseFee && h >= p.EnableHeight
+    requires valid: p.BaseFeeChangeDenominator != 0 && p.ElasticityMultiplier != 0 && p.BaseFee >= 0
+             && p.MinGasPrice >= 0
+    ensures disabled: !enabled ==> result == nil
+    ensures first: enabled && h == p.EnableHeight ==> result != nil && *result == b
+    ensures notarget: enabled && h != p.EnableHeight && T > 18446744073709551615 ==> result == nil
+    ensures equal: enabled && h != p.EnableHeight && T <= 18446744073709551615 && g == T ==> result != nil && *result == b
+    ensures increase: enabled && h != p.EnableHeight && T <= 18446744073709551615 && g > T
+            ==> result != nil && *result == b + imax(1, ((b * (g - T)) / T) / den)
+    ensures decrease: enabled && h != p.EnableHeight && T <= 18446744073709551615 && g < T
+            ==> result != nil && *result == imax(b - ((b * (T - g)) / T) / den, floor)
+    ensures fresh_result: result != nil ==> fresh(result)
+@*/
